@@ -64,6 +64,11 @@ func (ltEngine) Generate(prop string, r *simrt.RNG, tier string, run int) *simrt
 	sc := &simrt.Scenario{Knobs: map[string]int64{}}
 	timeout := []int64{0, 400, 600, 1000, 1500}[r.Intn(5)]
 	sc.Knobs["timeout_ms"] = timeout
+	// the node's clock correction (what the NTP check sets): every deadline of the
+	// node must be taken and compared on the same clock, whatever the correction
+	if r.Chance(1, 3) {
+		sc.Knobs["clock_correction_ms"] = []int64{3000, -3000, 250, 20000, -20000}[r.Intn(5)]
+	}
 	eff := timeout
 	if eff == 0 {
 		eff = 1000
@@ -188,6 +193,11 @@ func (ltEngine) run(ctx *simrt.Ctx) *simrt.Violation {
 	sc := ctx.Sc
 	uid := fmt.Sprintf("%s-%d-%d", sc.Property, sc.Run, ctx.Seq())
 	timeoutMs := sc.Knob("timeout_ms", 0)
+	if cc := sc.Knob("clock_correction_ms", 0); cc != 0 {
+		types.SetTimeDelta(cc * int64(time.Millisecond))
+		defer types.SetTimeDelta(0)
+		ctx.Fault("clock_correction")
+	}
 	n := newNode(ctx, nodeOpts{uid: uid, mempool: true, ltTimeout: timeoutMs})
 	defer n.close()
 	n.bsim = broadcast.NewSim(n.env, n.run)
